@@ -85,13 +85,17 @@ theorem no_commit_zero (topicMap : List (Ring BrokerOffset)) (p : Nat) (part par
   unfold lagPass at hpass
   rw [hc] at hpass
   split at hpass
-  · simp at hpass
+  · have := Option.some.inj hpass
+    subst this
+    exact h0
   · simp only [] at hpass
     split at hpass
     · simp at hpass
     · split at hpass
       · split at hpass
-        · simp at hpass
+        · have := Option.some.inj hpass
+          subst this
+          exact h0
         · have := Option.some.inj hpass
           subst this
           exact h0
